@@ -927,3 +927,7 @@ mod tests {
         );
     }
 }
+
+#[cfg(vpncloud_verif)]
+#[path = "/verif/harness/hooks/init.rs"]
+pub mod verif;
